@@ -13,7 +13,7 @@ pub fn recv_response_flow_cfg(cfg: &ReqCfg) -> Result<Flow<(), RecvResponse>, St
     let f = cfg.build_prepare()?;
     let mut f = f.proceed();
     let mut buf = vec![0u8; 4096];
-    f.write(&mut buf).map_err(|e| format!("head: {:?}", e))?;
+    crate::driver::write_whole_head(&mut f).map_err(|e| format!("head: {}", e))?;
     let mut cur = AnyFlow::SendRequest(f).proceed()?.ok_or("cannot leave SendRequest")?;
     loop {
         cur = match cur {
@@ -41,13 +41,13 @@ pub fn recv_response_call(method: &str) -> Call<CallRecvResponse, ()> {
     if crate::refmodel::reqvalid::needs_body(method) {
         let cfg = ReqCfg::new(method, "1.1", "http://a.test/p").orig("content-length", "0");
         let mut c = Call::with_body(cfg.build_request()).expect("call");
-        c.write(&[], &mut buf).expect("head");
+        crate::driver::call_with_body_head(&mut c).expect("head");
         c.write(&[], &mut buf).expect("finish");
         c.into_receive().expect("into_receive")
     } else {
         let cfg = ReqCfg::new(method, "1.1", "http://a.test/p");
         let mut c = Call::without_body(cfg.build_request()).expect("call");
-        c.write(&mut buf).expect("head");
+        crate::driver::call_without_body_head(&mut c).expect("head");
         c.into_receive().expect("into_receive")
     }
 }
